@@ -575,7 +575,7 @@ func TestC05(t *testing.T) {
 		}
 	}
 	keyRaw := vh.Sub(seed, "c05-key").Bytes(32)
-	key := frame.NewV2Key(keyRaw)
+	key := mkKey(keyRaw)
 	plain := &c05env{rep: rep}
 	withD := &c05env{rep: rep, drw: genv.drw, layouts: genv.layouts}
 	withDK := &c05env{rep: rep, drw: genv.drw, layouts: genv.layouts, key: key, keyRaw: keyRaw}
